@@ -3,7 +3,7 @@ from . import explore
 from .common import HarnessError, Report, Violation
 
 
-def run_e1(spec, tier, depth, state_budget, time_budget, rule, assumptions, level="model_checking", extra_cov=None):
+def run_e1(spec, tier, depth, state_budget, time_budget, rule, assumptions, level="model_checking", extra_cov=None, post=None):
     report = Report(spec.prop, level, tier)
     explore.run(spec, report, tier, depth, state_budget, time_budget)
     # every history violation must reproduce from its replay data before it is reported
@@ -19,6 +19,8 @@ def run_e1(spec, tier, depth, state_budget, time_budget, rule, assumptions, leve
     if extra_cov:
         cov.update(extra_cov(cov, wit))
     report.assumptions = list(assumptions)
+    if post:
+        post(report)
     return report.finish()
 
 
